@@ -8,7 +8,7 @@ GROUP = "Child"
 META = {
     "group": "Child",
     "technique": "Coq proof of the request/response re-encoding round trip over a Gallina model of child.go's codec (encoding/json string transport, URL parts to text, header collapse) + vm_compute correspondence with the real functions + the real ServiceHandler run in process and in child mode on generated services and requests",
-    "text": "C41_codec_roundtrip_request_partial / C41_codec_roundtrip_response_partial: a request reaches the service unchanged, and the service's status, headers and body reach the client unchanged, whenever they are representable (all strings well-formed UTF-8, URL parts are strings, one value per response header, no JSON Accept, status not 401 and not an error status with empty body) - proved for all such requests and outcomes over the model; C41_refuted / C41_refuted_witnesses give the fields where the trip is not the identity, each replayed on the real code and recorded as known findings; the model is compared with the real encoding/json trip, getHeadersFromResponse and data.String on every run, and ServiceHandler is run in both modes on generated services. partial: process start, the file and socket transports, timeouts and the child's own settings/symbol state are not modelled (the in-memory trip uses the same encoding/json calls); error documents and req.URL.Path differ between the modes (known findings)",
+    "text": "C41_codec_roundtrip_request_partial / C41_codec_roundtrip_response_partial: a request reaches the service unchanged, and the service's status, headers and body reach the client unchanged, whenever they are representable (all strings well-formed UTF-8, URL parts are strings, one value per response header, no JSON Accept, status not 401 and not an error status with empty body) - proved for all such requests and outcomes over the model; C41_refuted / C41_refuted_witnesses give the fields where the trip is not the identity, each replayed on the real code and recorded as known findings; the model is compared with the real encoding/json trip, getHeadersFromResponse and data.String on every run, C41_caller_kind: every caller kind (anonymous, password, accepted token, presented-but-rejected token) is reported with the same req.Authentication; ServiceHandler is run in both modes on generated services and caller kinds, and a subset incl. a 3.5 s service is run through real child processes over the file and socket transports. partial: process start, the transports, timeouts and the child's own settings/symbol state are exercised but not modelled; error documents and req.URL.Path differ between the modes (known findings)",
     "note": "Trusted: Coq kernel; the model of json string transport (utf8.DecodeRune validity), data.String on int/bool/string, http.Header Set/Add/Del; the instrumented copy of child.go (runChildViaPipe body replaced by an in-memory encoding/json trip + direct runChildRequest call); overlay harness; Python comparison.",
 }
 
@@ -85,6 +85,23 @@ def gen_codec(rng, n):
     return out
 
 
+# caller kinds: anonymous; password accepted; bearer token accepted; bearer token presented but rejected (open endpoint);
+# admin by password; admin by token; rejected token with a left-over user name
+CALLERS = [("", False, "", False, ()), ("amy", True, "", False, ("ego.logon",)), ("bob", True, "tok-1", False, ("ego.logon", "table.read")),
+           ("", False, "tok-bad", False, ()), ("root", True, "", True, ("ego.root",)), ("root", True, "tok-2", True, ("ego.root", "ego.logon")),
+           ("mallory", False, "tok-expired", False, ())]
+SLOW_SRC = '''import "http"
+import "time"
+
+func handler(req http.Request, w *http.ResponseWriter) {
+	time.Sleep(time.ParseDuration("3500ms"))
+	w.Header().Add("X-Alpha", "slow")
+	w.WriteHeader(200)
+	w.Write([]byte{102, 105, 110, 97, 108, 108, 121})
+}
+'''
+
+
 def svc_source(status, headers, body, uses):
     """A service that sets the given status, headers and body bytes; 'uses' adds request fields to the body."""
     lines = ['import "http"', "func handler(req http.Request, w *http.ResponseWriter) {"]
@@ -96,7 +113,9 @@ def svc_source(status, headers, body, uses):
     if body or uses:
         exprs = {"method": "req.Method", "body": "req.Body", "user": "req.Username", "path": "req.URL.Path",
                  "part": 'string(req.URL.Parts["id"])', "param": 'string(req.Parameters["q"])', "hdr": 'string(req.Headers["X-Q"])',
-                 "auth": "string(req.Authenticated)", "admin": "string(req.IsAdmin)"}
+                 "auth": "string(req.Authenticated)", "admin": "string(req.IsAdmin)", "authn": "req.Authentication",
+                 "perms": "string(req.Permissions)", "isjson": "string(req.IsJSON)", "istext": "string(req.IsText)",
+                 "endpoint": "req.Endpoint", "session": "string(req.SessionID)"}
         for u in uses:
             lines.append("    for _, c := range []byte(%s + \";\") { b = append(b, c) }" % exprs[u])
         lines.append("    w.Write(b)")
@@ -109,28 +128,37 @@ def gen_e2e(rng, n):
     cases = []
 
     def add(cls, status=200, headers=(), body=b"ok", uses=(), accept_json=False, req_body=b"", parts=(), req_headers=(("X-Q", ["a"]),),
-            query="q=1", user="", auth=False, admin=False, token="", method="GET", file=None, known=True):
+            query="q=1", user="", auth=False, admin=False, token="", method="GET", file=None, known=True, perms=(), real=False, slow=False,
+            src=None):
         i = len(cases)
         path = "/services/c41/s%d" % i
         hs = [{"k": k, "v": list(v)} for k, v in req_headers]
         if accept_json:
             hs.append({"k": "Accept", "v": ["application/json"]})
-        c = {"src": "" if file else svc_source(status, headers, body, uses), "file": file or "", "method": method,
+        c = {"src": "" if file else (src or svc_source(status, headers, body, uses)), "file": file or "", "method": method, "perms": list(perms),
+             "real": real, "slow": slow,
              "url": path + ("?" + query if query else ""), "path": path, "headers": hs, "body": req_body.hex(),
              "parts": [{"k": k, "t": t, "v": v} for k, t, v in parts], "user": user, "admin": admin, "auth": auth, "token": token,
              "json": accept_json, "text": not accept_json}
         cases.append((c, {"cls": cls, "status": status, "headers": [(k, list(v)) for k, v in headers], "body": bytes(body),
-                          "json": accept_json, "known": known and not uses}))
+                          "json": accept_json, "known": known and not uses and not src, "auth": auth, "bearer": token != "",
+                          "authn_only": tuple(uses) == ("authn",) and bytes(body) == b"a="}))
 
     # regression corpus: the _refuted witnesses and one representable case of each shape
-    add(None)
-    add("multi-valued-response-header", headers=[("X-Alpha", ["a", "b"])])
-    add("non-utf8-response-body", body=b"\x89PNG\xff")
-    add("json-accept-content-type", body=b"{}", accept_json=True)
+    add(None, real=True)
+    # every kind of caller x a service echoing every caller field the child protocol carries
+    who = ("authn", "user", "auth", "admin", "perms", "isjson", "istext", "endpoint", "method")
+    for user, auth, token, admin, perms in CALLERS:
+        add(None, uses=who, user=user, auth=auth, token=token, admin=admin, perms=perms, body=b"c=", real=True)
+        add(None, uses=("authn",), user=user, auth=auth, token=token, admin=admin, perms=perms, body=b"a=")
+    add(None, src=SLOW_SRC, real=True, slow=True)
+    add("multi-valued-response-header", headers=[("X-Alpha", ["a", "b"])], real=True)
+    add("non-utf8-response-body", body=b"\x89PNG\xff", real=True)
+    add("json-accept-content-type", body=b"{}", accept_json=True, real=True)
     add("non-string-url-part", uses=("part",), parts=[("id", "i", "42")], body=b"p=")
     add("non-utf8-request-body", uses=("body",), req_body=b"h\xffi", body=b"b=", method="POST")
     add("url-path", uses=("path",), body=b"u=")
-    add("error-status-empty-body", status=404, body=b"")
+    add("error-status-empty-body", status=404, body=b"", real=True)
     add(None, status=201, headers=[("X-Alpha", ["one"]), ("Cache-Control", ["no-cache"])], body="€ ok".encode())
     add(None, uses=("method", "body", "user", "param", "hdr", "auth", "admin"), req_body="{\"a\": \"é\"}".encode(), method="POST", user="bob",
         auth=True, admin=True, req_headers=(("X-Q", ["a", "b"]),), query="q=1&q=2", body=b"r=")
@@ -145,9 +173,10 @@ def gen_e2e(rng, n):
             add(None, status=rng.choice([200, 200, 201, 202, 400, 404, 418, 500, 503]), headers=hs, body=gen_bytes(rng, rng.choice(["ascii", "utf8"])) or b"x",
                 req_body=gen_bytes(rng, "utf8"), method=rng.choice(["GET", "POST", "PUT", "DELETE"]))
         elif r < 0.6:
-            add(None, uses=tuple(rng.sample(["method", "body", "user", "param", "hdr", "auth", "admin"], rng.randint(1, 4))),
-                req_body=gen_bytes(rng, rng.choice(["ascii", "utf8"])), method=rng.choice(["POST", "PUT"]), user=rng.choice(["", "amy"]),
-                auth=rng.random() < 0.5, admin=rng.random() < 0.3, token=rng.choice(["", "tok"]),
+            user, auth, token, admin, perms = rng.choice(CALLERS)
+            add(None, uses=tuple(rng.sample(["method", "body", "user", "param", "hdr", "auth", "admin", "authn", "perms", "isjson", "istext", "endpoint"], rng.randint(1, 5))),
+                req_body=gen_bytes(rng, rng.choice(["ascii", "utf8"])), method=rng.choice(["POST", "PUT"]), user=user,
+                auth=auth, admin=admin, token=token, perms=perms, real=rng.random() < 0.3,
                 req_headers=(("X-Q", [rng.choice(["a", "b c"]) for _ in range(rng.randint(1, 3))]),), query=rng.choice(["q=1", "q=a&q=b", "q=%C3%A9"]), body=b"r=")
         elif r < 0.7:
             add("multi-valued-response-header", headers=[(rng.choice(HKEYS), ["a", "b", "c"][:rng.randint(2, 3)])])
@@ -182,7 +211,7 @@ def run(ck):
               "httptest.ResponseRecorder shows the status, headers and body a client would receive")
     ck.trusted("harness/C41/c41_test.go (in-package overlay), instrumented copy of child.go (runChildViaPipe replaced by an in-memory encoding/json trip), props/C41.py generators and comparison",
                "correspondence evaluated by vm_compute in a generated cases file")
-    coq_ok = ck.coq_stage(GROUP, theorems=["C41_codec_roundtrip_request_partial", "C41_codec_roundtrip_response_partial", "C41_refuted", "C41_refuted_witnesses"])
+    coq_ok = ck.coq_stage(GROUP, theorems=["C41_codec_roundtrip_request_partial", "C41_codec_roundtrip_response_partial", "C41_caller_kind", "C41_refuted", "C41_refuted_witnesses"])
 
     patched = patch_child(ck.work)
     if patched is None:
@@ -195,7 +224,10 @@ def run(ck):
         ck.violation("harness-build", "harness for internal/server/services does not build:\n" + binp[-1500:], replay={"log": binp[-3000:]}, found_input=False)
         return
     codec = gen_codec(ck.rng, 250 if quick else 3000)
-    e2e = gen_e2e(ck.rng, 60 if quick else 400)
+    e2e = gen_e2e(ck.rng, 70 if quick else 400)
+    flagged = [i for i, (c, m) in enumerate(e2e) if c["real"]]
+    for i in flagged[(16 if quick else 80):]:           # bound the number of child processes started
+        e2e[i][0]["real"] = False
     if ck.replay_file:
         rp = json.load(open(ck.replay_file))["replay"]
         if "codec" in rp:
@@ -252,6 +284,8 @@ def run(ck):
         for (c, m), wi, wc in zip(e2e, res["inproc"], res["child"]):
             ne2e += 1
             cls_count[m["cls"] or "representable"] = cls_count.get(m["cls"] or "representable", 0) + 1
+            if wi["status"] == -1:
+                continue
             if wi.get("panic") or wc.get("panic"):
                 found = True
                 ck.violation("e2e-panic", "handler panicked (%s) for %s %s" % ("in process" if wi.get("panic") else "child mode", c["method"], c["url"]), replay={"case": c, "meta": m})
@@ -265,12 +299,53 @@ def run(ck):
                     ck.violation("e2e-representable-differs", "a representable request/outcome is answered differently: " + what, replay={"case": c, "meta": m})
                 else:
                     ck.violation(m["cls"], what, replay={"case": c, "meta": m})
-    ck.cov["evaluations"] = len(codec) + 2 * ne2e
+    # ---------------------------------------------------------------- the REAL child process over the file and socket transports
+    nreal = 0
+    reals = [i for i, (c, m) in enumerate(e2e) if c.get("real")]
+    if reals:
+        ok2, bin2 = vf.go_test_build(ck.work, "internal/server/services", {
+            "internal/server/services/zz_verif_c41_test.go": os.path.join(vf.HARNESS, "C41", "c41_test.go"),
+            "internal/server/services/zz_verif_c41_real_test.go": os.path.join(vf.HARNESS, "C41", "c41_real_test.go")}, "c41real.test")
+        out2 = os.path.join(ck.work, "out2.json")
+        if not ok2:
+            ck.violation("harness-build-real", "real-transport harness does not build:\n" + bin2[-1500:], replay={"log": bin2[-3000:]}, found_input=False)
+        else:
+            rc2, log2 = vf.run_bin(bin2, "^TestVerifC41Real$", {"VERIF_IN": inp, "VERIF_OUT2": out2}, cwd=vf.REPO, timeout=900)
+            if rc2 != 0 or not os.path.exists(out2):
+                ck.violation("harness-run-real", "real-transport harness failed:\n" + log2[-1500:], replay={"log": log2[-3000:]}, found_input=False)
+            else:
+                r2 = json.load(open(out2))
+                for k, i in enumerate(r2["index"]):
+                    c, m = e2e[i]
+                    wi = r2["inproc"][k]
+                    for tr in ("file", "pipe"):
+                        wt = r2[tr][k]
+                        nreal += 1
+                        nontriv.add("real:%s:%s" % (tr, c["url"]))
+                        cls_count["real-" + tr] = cls_count.get("real-" + tr, 0) + 1
+                        if wire(wi) != wire(wt) or wi.get("panic") or wt.get("panic"):
+                            what = "%s %s%s over the %s transport (real child process): in process -> %d %r %r; child -> %d %r %r" % (
+                                c["method"], c["url"], " (service sleeping 3.5 s)" if c.get("slow") else "", tr, wi["status"], wi["headers"],
+                                bytes.fromhex(wi["body"])[:80], wt["status"], wt["headers"], bytes.fromhex(wt["body"])[:120])
+                            if m["cls"] is None:
+                                found = True
+                                ck.violation("real-transport-differs:" + tr + (":slow" if c.get("slow") else ""),
+                                             "a representable request/outcome is answered differently: " + what, replay={"case": c, "meta": m, "transport": tr})
+                            else:
+                                ck.violation(m["cls"], what, replay={"case": c, "meta": m, "transport": tr})
+                        # the in-memory child mode used for the bulk of the cases must be what the real transports give
+                        # (not for the server's own error document: it names the instance id, which the in-memory trip sets in the test process)
+                        if patched and res["child"][i]["status"] != -1 and m["cls"] != "error-status-empty-body" and wire(res["child"][i]) != wire(wt):
+                            found = True
+                            ck.violation("real-vs-in-memory:" + tr, "%s %s: the real %s transport answers %d %r %r, the in-memory trip used by the check %d %r %r" % (
+                                c["method"], c["url"], tr, wt["status"], wt["headers"], bytes.fromhex(wt["body"])[:80], res["child"][i]["status"],
+                                res["child"][i]["headers"], bytes.fromhex(res["child"][i]["body"])[:80]), replay={"case": c, "meta": m, "transport": tr})
+    ck.cov["evaluations"] = len(codec) + 2 * ne2e + nreal
     ck.cov["distinct_nontrivial"] = len(nontriv)
     ck.cov["input_distribution"] = {"codec_cases": len(codec), "codec_ill_formed_bodies": sum(1 for c in codec if not utf8_ok(bytes.fromhex(c["body"]))),
                                     "codec_multi_valued_headers": sum(1 for c in codec for h in c["headers"] if len(h["v"]) > 1),
                                     "codec_non_string_parts": sum(1 for c in codec for p in c["parts"] if p["t"] != "s"),
-                                    "e2e_cases": ne2e, "e2e_by_class": cls_count}
+                                    "e2e_cases": ne2e, "real_transport_runs": nreal, "e2e_by_class": cls_count}
     for c, o in list(zip(codec, res["codec"]))[:3]:
         ck.sample({"codec_in": c, "observed": o})
     for (c, m), wi, wc in list(zip(e2e, res["inproc"], res["child"] or res["inproc"]))[1:4]:
@@ -307,7 +382,8 @@ def run(ck):
         L.append("].\nDefinition pbad (i : nat) (c : uval * str) : list nat := if str_eqb (json_str (ustring (fst c))) (snd c) then [] else [i].")
         exprs = {"B": "idx bbad 0 bodies", "H": "idx hbad 0 hcases", "P": "idx pbad 0 pcases"}
         # e2e: services whose outcome is known by construction
-        kn = [(i, c, m) for i, (c, m) in enumerate(e2e) if m.get("known") and patched and not res["inproc"][i].get("panic") and not res["child"][i].get("panic")]
+        kn = [(i, c, m) for i, (c, m) in enumerate(e2e) if m.get("known") and patched and res["inproc"][i]["status"] != -1
+              and not res["inproc"][i].get("panic") and not res["child"][i].get("panic")]
 
         def wterm(w):
             return "{| w_status := %d; w_headers := [%s]; w_body := %s |}" % (
@@ -320,6 +396,15 @@ def run(ck):
         L.append("].\nDefinition ibad (i : nat) (c : outcome * wire * wire) : list nat := let '(o, wi, wc) := c in if wire_eqb (inproc_wire o) wi then [] else [i].")
         L.append("Definition cbad (i : nat) (c : outcome * wire * wire) : list nat := let '(o, wi, wc) := c in\n"
                  "  if child_substitutes_error_body o || (o_status o =? 401)%Z || wire_eqb (child_wire o) wc then [] else [i].")
+        names = {0: "none", 1: "user", 2: "token"}
+        an = [(i, m) for i, (c, m) in enumerate(e2e) if m.get("authn_only") and patched and not res["inproc"][i].get("panic") and not res["child"][i].get("panic")]
+        L.append("Definition authn_name (n : N) : str := match n with 0 => %s | 1 => %s | _ => %s end." % (vs("none"), vs("user"), vs("token")))
+        L.append("Definition acases : list (bool * bool * str * str) := [")
+        L.append(";\n".join("(%s, %s, %s, %s)" % ("true" if m["auth"] else "false", "true" if m["bearer"] else "false",
+                                                  vb(res["inproc"][i]["body"]), vb(res["child"][i]["body"])) for i, m in an))
+        L.append("].\nDefinition abad (i : nat) (c : bool * bool * str * str) : list nat := let '(a, b, wi, wc) := c in\n"
+                 "  if str_eqb wi (%s ++ authn_name (authn_inproc a b) ++ [59]) && str_eqb wc (%s ++ authn_name (authn_child a b) ++ [59]) then [] else [i]." % (vs("a="), vs("a=")))
+        exprs["A"] = "idx abad 0 acases"
         exprs["EI"] = "idx ibad 0 ecases"
         exprs["EC"] = "idx cbad 0 ecases"
         okc, resc = vf.coq_eval(GROUP, ck.work, "cases", "\n".join(L), exprs, timeout=900)
@@ -336,6 +421,11 @@ def run(ck):
                                  replay={"codec": codec[i]}, found_input=False)
                 for i in resc["P"][:3]:
                     ck.violation("corr-parts", "model/implementation disagree on data.String of a URL part (case %d of the part list)" % i, replay={"index": i}, found_input=False)
+                for j in resc["A"][:3]:
+                    i, m = an[j]
+                    ck.violation("corr-authn", "model/implementation disagree on req.Authentication for a caller with authenticated=%s token_presented=%s: in process %r, child %r" % (
+                        m["auth"], m["bearer"], bytes.fromhex(res["inproc"][i]["body"]), bytes.fromhex(res["child"][i]["body"])),
+                        replay={"case": e2e[i][0], "meta": {"cls": None}}, found_input=False)
                 for key, what in (("EI", "in-process answer"), ("EC", "child-mode answer")):
                     for j in resc[key][:3]:
                         i, c, m = kn[j]
